@@ -75,6 +75,28 @@ def st_case(draw):
 
 
 @st.composite
+def st_explicit_case(draw):
+    """Explicitly numbered messages in a genuinely permuted order whose displacement stays just below the
+    capacity (constructed by delaying single messages, never repaired towards the identity)."""
+    n = draw(st.integers(3, 7))
+    cap = draw(st.integers(2, 4))
+    perm = list(range(n))
+    for _ in range(draw(st.integers(1, 6))):
+        i = draw(st.integers(0, n - 2))
+        shift = draw(st.integers(1, cap))
+        j = min(n - 1, i + shift)
+        cand = perm[:i] + perm[i + 1: j + 1] + [perm[i]] + perm[j + 1:]
+        if displacement(cand) < cap:
+            perm = cand
+    nsub = draw(st.integers(1, 3))
+    futures = draw(st.integers(0, 3)) == 0
+    cfg = dict(n=n, cap=cap, lazy=False, drive=[True] * nsub, sender="explicit", perm=perm, futures=futures,
+               fut_order=list(draw(st.permutations(list(range(n))))) if futures else [],
+               nworkers=draw(st.integers(1, 2)) if futures else 0, lazy_cap=True)
+    return dict(cfg=cfg, policy=draw(policies.st_policy()))
+
+
+@st.composite
 def st_divide_case(draw):
     nout = draw(st.integers(2, 3))
     outs = []
@@ -362,7 +384,8 @@ def run_dfs(d):
 
 
 SUBCHECKS = [
-    SubCheck("random", run_case, strategy=st_case, quick=3000, thorough=120000),
+    SubCheck("random", run_case, strategy=st_case, quick=2500, thorough=120000),
+    SubCheck("explicit", run_case, strategy=st_explicit_case, quick=1200, thorough=60000),
     SubCheck("divide", run_divide, strategy=st_divide_case, quick=1000, thorough=40000),
     SubCheck("dfs", run_dfs, enumerate=enum_dfs),
 ]
